@@ -86,6 +86,17 @@ def random_calls(r, cfg, length):
     depth = 0
     nreg = 0
     out = []
+    if r.random() < 0.3:
+        # a scope name that occurs twice on the path (p > q > p): leaving the inner one must leave the outer alone
+        p, q = r.sample(["s:a", "s:b", "s:grp", "i:0", "i:1", "i:7"], 2)
+        for part in (p, q, p):
+            out.append({"call": "enter", "part": part, "bad": "none"})
+        for k in range(3):
+            nreg += 1
+            out.append({"call": "add", "reg": nreg, "name": "s:" + "xyz"[k], "offset": -1, "width": r.choice([1, 8, 17]), "bad": "none"})
+            out.append({"call": "exit", "bad": "none", "exc": 0})
+        nreg += 1
+        out.append({"call": "add", "reg": nreg, "name": "s:top", "offset": -1, "width": 8, "bad": "none"})
     for _ in range(length):
         x = r.random()
         if x < 0.55:
